@@ -5,9 +5,10 @@ import json
 import os
 
 VERIF = os.path.dirname(os.path.dirname(os.path.abspath(__file__)))
+NOTES = json.load(open(os.path.join(VERIF, "seeded", "STRENGTHENING.json")))
 print("| id | change (one line) | caught by (exit 1) | with failing input | before strengthening |")
 print("|----|-------------------|--------------------|--------------------|----------------------|")
-for d in sorted(glob.glob(os.path.join(VERIF, "seeded", "*"))):
+for d in sorted(glob.glob(os.path.join(VERIF, "seeded", "*-?"))):
     m = json.load(open(os.path.join(d, "meta.json")))
     v = m.get("verif", {})
     ch = v.get("checks", {})
@@ -16,5 +17,17 @@ for d in sorted(glob.glob(os.path.join(VERIF, "seeded", "*"))):
     summ = m.get("summary", "").strip().replace("|", "/").replace("\n", " ")
     if len(summ) > 150:
         summ = summ[:147] + "…"
+    fr = v.get("first_run") or ""
+    if isinstance(fr, dict):
+        own = fr.get(m["property"], {})
+        if own.get("exit") == 1 and not any("no-failing-input-found" in l for l in own.get("violation", [])):
+            fr = "caught with failing input"
+        elif own.get("exit") == 1:
+            fr = "flagged but no-failing-input-found"
+        else:
+            fr = "missed (exit %s)" % own.get("exit")
+        note = v.get("strengthening") or NOTES.get(os.path.basename(d))
+        if note:
+            fr += ": " + note
     print("| %s | %s | %s | %s | %s |" % (os.path.basename(d), summ, ", ".join(caught) or "**none**", ", ".join(with_input) or "—",
-                                        (v.get("first_run") or "").replace("|", "/")[:160]))
+                                        fr.replace("|", "/")[:200]))
